@@ -30,13 +30,15 @@ ASSUMPTIONS = [
 DECL_GARBAGE = ['(x) y', '[a]', '{a:b}', '1px', '#hash', '"str"', ': x', '!important', '= x', 'foo(bar): baz', 'f(x', 'color red',
                 'color:', 'color: red ! x', 'color: a:b', 'color: =', 'top: 1px 2 !', '@foo bar', '@x {y:z}', '* html', 'a b c',
                 '(a;b) c: d', '[x;y]', '{ a: b; c: d } e', '"a;b"', "'}'", 'x: f(;)', '-', '-- x', 'color: red;;;', '& b: c',
-                'co lor: red', 'color: rgb(1,2', 'top: (1', 'u+0-7f: x', '12: 3', '$a: b', 'color: #', 'color: url(', '<!-- x: y -->']
+                'co lor: red', 'color: rgb(1,2', 'top: (1', 'u+0-7f: x', '12: 3', '$a: b', 'color: #', 'color: url(', '<!-- x: y -->',
+                '$ ! color: blue', 'x ! top: 1px', '! left: 0']
 STMT_GARBAGE = ['a,,b {top:0}', '1a {top:0}', 'a:::b {top:0}', ' {top:0}', 'a[[b]] {top:0}', 'a( {top:0}', '@foo bar;',
                 '@foo { a { b: c } }', '@charset "utf-8";', '@import "late.css";', '@namespace q "http://q";', '@namespace p "http://other.example/p";',
                 '@namespace "http://other.example/default";', '@namespace svg "http://p.example/ns";',
                 '@top-left { content: "x" }', 'a;b {top:0}', '"str" {top:0}', '{}', '{ x: y }', '(a) {top:0}', '[b] {top:0}',
                 'a { b: c } }', '& {top:0}', 'a > {top:0}', 'a, {top:0}', ', a {top:0}', '@media {a{top:0}}',
-                '@media print and {a{top:0}}', '@page :nope: {margin:0}', '@import;', '@x;', 'a.{top:0}', '#{top:0}', 'a::{top:0}']
+                '@media print and {a{top:0}}', '@page :nope: {margin:0}', '@import;', '@x;', 'a.{top:0}', '#{top:0}', 'a::{top:0}',
+                '$ {}', '$ {top:0}', '1 {}']
 # unbalanced / block-closing garbage is outside the statement ("brackets, braces and quotes balanced")
 for bad in ('f(x', 'color: rgb(1,2', 'top: (1', 'color: url(', 'a { b: c } }'):
     if bad in DECL_GARBAGE:
@@ -44,6 +46,15 @@ for bad in ('f(x', 'color: rgb(1,2', 'top: (1', 'color: url(', 'a { b: c } }'):
     if bad in STMT_GARBAGE:
         STMT_GARBAGE.remove(bad)
 STMT_GARBAGE.remove('a( {top:0}')
+
+
+MAY_LEAVE_DECLARATION = {'color: red;;;', 'color:', 'color: red ! x', 'top: 1px 2 !', 'color: a:b', 'color: =', 'color: #', 'x: f(;)', '$a: b', 'u+0-7f: x',
+                         '12: 3', 'co lor: red', 'color red', 'foo(bar): baz'}
+
+
+# rules with an invalid selector and nothing else: ignored as a whole
+HEADER_SAFE = {'$ {}', '$ {top:0}', '1 {}', 'a,,b {top:0}', '1a {top:0}', 'a:::b {top:0}', ' {top:0}', 'a[[b]] {top:0}', '& {top:0}',
+               'a > {top:0}', 'a, {top:0}', ', a {top:0}', 'a.{top:0}', '#{top:0}', 'a::{top:0}'}
 
 
 def parse(text):
@@ -156,6 +167,14 @@ def check_inject_decl(case, ctx):
         kind = {'(': 'paren', '[': 'bracket', '{': 'brace'}.get(first, 'other')
         raise Violation('decl:following-or-preceding-items-lost:' + kind,
                         f'garbage {case["garbage"]!r} at item {i}: {dam_text!r}: block {bd!r} vs {bo!r}')
+    # the damaged construct itself must not turn into declarations (a malformed declaration is skipped up to its ';');
+    # the few garbage texts that hold a well-formed declaration in front of the damage are exempt
+    if case['garbage'] not in MAY_LEAVE_DECLARATION:
+        n_after = len(bo) - i
+        extra = bd[i:len(bd) - n_after] if n_after else bd[i:]
+        leaked = [x for x in extra if x and x[0] == 'decl']
+        if leaked:
+            raise Violation('decl:garbage-parsed-as-declaration', f'garbage {case["garbage"]!r} at item {i}: {dam_text!r}: left {leaked!r}')
     ctx.event('garbage:' + case['garbage'][:12])
     ctx.case(dam_text, i < len(items), {'damaged': dam_text[:300], 'garbage': case['garbage'], 'index': i})
 
@@ -184,8 +203,13 @@ def check_inject_stmt(case, ctx):
     lists = stmt_lists(m)
     path, stmts = lists[case['which'] % len(lists)]
     lo = header_len(stmts) if not path else 0
-    i = min(lo + case['pos'], len(stmts))
     g = case['garbage']
+    if not path and g in HEADER_SAFE and case['pos'] % 2:
+        # a rule with an invalid selector is ignored wherever it stands, also between the @import / @namespace rules
+        # (not before @charset, which must be first)
+        lo = 1 if stmts and stmts[0]['k'] == 'charset' else 0
+        ctx.event('position:inside-header')
+    i = min(lo + case['pos'], len(stmts))
     if not path and g.startswith(('@namespace', '@import', '@charset')):
         # "misplaced" means: after the first statement that closes the header section
         first_body = next((j for j in range(lo, len(stmts)) if stmts[j]['k'] in ('style', 'media', 'page', 'fontface')), None)
@@ -312,3 +336,35 @@ SUBS = [
     Sub('trunc_stmt', check_trunc_stmt, strategy=trunc_stmt_strategy, quick=80, thorough=6000, shards_quick=8, budget_quick=60),
     Sub('trunc_decl', check_trunc_decl, strategy=trunc_decl_strategy, quick=150, thorough=10000, shards_quick=8, budget_quick=60),
 ]
+
+
+# --------------------------------------------------------------------------- escaped brackets in the damaged part (listed finding)
+
+ESC_SHEETS = [
+    ('a { color: red } @foo \\7b; c { left: 0 } d { top: 0 }', 'a { color: red } c { left: 0 } d { top: 0 }'),
+    ('a { color: red; $ \\7b ; width: 1px } b { top: 0 }', 'a { color: red; width: 1px } b { top: 0 }'),
+    ('a { top: 0 } \\7b {} c { left: 0 } d { top: 0 }', 'a { top: 0 } c { left: 0 } d { top: 0 }'),
+    ('a { color: red; \\28 y; width: 1px } b { top: 0 }', 'a { color: red; width: 1px } b { top: 0 }'),
+]
+
+
+def escbrace_cases(tier):
+    for i in range(len(ESC_SHEETS)):
+        yield {'i': i}
+
+
+def check_escbrace(case, ctx):
+    damaged, original = ESC_SHEETS[case['i']]
+    saved = cssutils.log.raiseExceptions
+    cssutils.log.raiseExceptions = False
+    try:
+        pd = P.p_sheet(parse(damaged))
+        po = P.p_sheet(parse(original))
+    finally:
+        cssutils.log.raiseExceptions = saved
+    ctx.case(damaged, True, {'damaged': damaged})
+    if [x for x in pd if x[0] != 'unknown'] != list(po):
+        raise Violation('escaped-bracket:treated-as-structure', f'{damaged!r} parses to {pd}, the undamaged sheet to {po}')
+
+
+SUBS.append(Sub('escbrace', check_escbrace, enumerate=escbrace_cases, shards_quick=1, shards_thorough=1))
